@@ -8,6 +8,7 @@ import re
 import traceback
 
 from amaranth import Elaboratable, Module, Signal
+from amaranth.hdl._ir import build_netlist
 from amaranth.sim import Simulator
 from transactron import Method, TModule, Transaction, TransactronContextElaboratable, def_method
 from transactron.lib import condition
@@ -15,6 +16,8 @@ from transactron.utils.dependencies import DependencyContext, DependencyManager
 
 ENGINE = "dgen+refsem"
 TECHNIQUE = "runtime monitoring: generated condition() blocks with branch witnesses; per-cycle oracle over sampled branch witnesses, conditions, callee readiness and outside transactions"
+
+KLASS_LOOP = "condition:conditionally_called_host_with_branch_calling_validated_method_loops"
 
 
 def gen(rnd):
@@ -35,6 +38,19 @@ def gen(rnd):
     D["br"] = [[j for j in b if j not in D["outer_calls"]] for b in br]
     D["outside"] = [sorted(rnd.sample(range(D["nm"]), rnd.randint(1, 2))) for _ in range(rnd.randint(1, 2))] if D["share"] else []
     D["overlap"] = rnd.random() < 0.4  # conditions derived from shared inputs so that several are often true together
+    # callees with validate_arguments: the argument (one bit per method, an input) must be 1 for the call to be accepted
+    D["validated"] = [rnd.random() < 0.3 for _ in range(D["nm"])]
+    # a nested condition() inside one (non-default) branch, with its own conditions, callees and flags
+    D["nested"] = None
+    if rnd.random() < 0.35:
+        i = rnd.randrange(D["nb"])
+        if rnd.random() < 0.5:
+            D["br"][i] = []  # the enclosing branch calls nothing itself
+        free = [j for j in range(D["nm"]) if j not in D["br"][i] and j not in D["outer_calls"]]
+        nb2 = rnd.randint(1, 2)
+        default2 = rnd.random() < 0.5
+        D["nested"] = {"branch": i, "nb": nb2, "default": default2, "nonblocking": rnd.random() < 0.5, "priority": rnd.random() < 0.5,
+                       "br": [sorted(rnd.sample(free, rnd.randint(0, min(2, len(free))))) for _ in range(nb2 + (1 if default2 else 0))]}
     return D
 
 
@@ -47,30 +63,62 @@ class Emit(Elaboratable):
         self.orr = [Signal(name=f"or{i}") for i in range(len(D["outside"]))]
         self.bw = [Signal(name=f"bw{i}") for i in range(len(D["br"]))]
         self.pw = Signal(name="pw")
+        self.va = [Signal(name=f"va{i}") for i in range(D["nm"])]
+        N = D.get("nested")
+        self.cond2 = [Signal(name=f"d{i}") for i in range(N["nb"])] if N else []
+        self.bw2 = [Signal(name=f"bx{i}") for i in range(len(N["br"]))] if N else []
 
     def elaborate(self, platform):
         m = TModule()
         D = self.D
-        ms = self.ms = [Method(name=f"M{i}") for i in range(D["nm"])]
+        V = D.get("validated") or [False] * D["nm"]
+        N = D.get("nested")
+        ms = self.ms = [Method(name=f"M{i}", i=[("a", 1)] if V[i] else []) for i in range(D["nm"])]
         for i in range(D["nm"]):
-            @def_method(m, ms[i], ready=self.mr[i])
-            def _():
-                pass
+            if V[i]:
+                @def_method(m, ms[i], ready=self.mr[i], validate_arguments=lambda a: a)
+                def _(a):
+                    pass
+            else:
+                @def_method(m, ms[i], ready=self.mr[i])
+                def _():
+                    pass
+
+        def call(j):
+            if V[j]:
+                ms[j](m, a=self.va[j])
+            else:
+                ms[j](m)
+
+        def nested_block():
+            with condition(m, nonblocking=N["nonblocking"], priority=N["priority"]) as branch:
+                for k in range(N["nb"]):
+                    with branch(self.cond2[k]):
+                        for j in N["br"][k]:
+                            call(j)
+                        m.d.comb += self.bw2[k].eq(1)
+                if N["default"]:
+                    with branch():
+                        for j in N["br"][N["nb"]]:
+                            call(j)
+                        m.d.comb += self.bw2[N["nb"]].eq(1)
 
         def block():
             m.d.comb += self.pw.eq(1)
             for j in D["outer_calls"]:
-                ms[j](m)
+                call(j)
             with condition(m, nonblocking=D["nonblocking"], priority=D["priority"]) as branch:
                 for i in range(D["nb"]):
                     with branch(self.cond[i]):
                         for j in D["br"][i]:
-                            ms[j](m)
+                            call(j)
                         m.d.comb += self.bw[i].eq(1)
+                        if N and N["branch"] == i:
+                            nested_block()
                 if D["default"]:
                     with branch():
                         for j in D["br"][D["nb"]]:
-                            ms[j](m)
+                            call(j)
                         m.d.comb += self.bw[D["nb"]].eq(1)
 
         self.outs = []
@@ -90,7 +138,7 @@ class Emit(Elaboratable):
                     host(m)
 
                 target = outer
-            with Transaction(name="caller").body(m, ready=self.tr):
+            with (caller := Transaction(name="caller")).body(m, ready=self.tr):
                 if D["cond_call"] == "if":
                     with m.If(self.cc):
                         target(m)
@@ -99,6 +147,7 @@ class Emit(Elaboratable):
                 else:
                     target(m)
             self.P = host
+            self.caller = caller
         else:
             with (t := Transaction(name="P")).body(m, ready=self.pr):
                 block()
@@ -106,7 +155,7 @@ class Emit(Elaboratable):
         for k, calls in enumerate(D["outside"]):
             with (o := Transaction(name=f"O{k}")).body(m, ready=self.orr[k]):
                 for j in calls:
-                    ms[j](m)
+                    call(j)
             self.outs.append(o)
         return m
 
@@ -128,21 +177,42 @@ def run_one(rec, rnd, idx, max_cycles):
             rec.check("C12:design_with_condition_elaborates", False, case=case, detail=traceback.format_exc()[-1200:])
             return
         rec.check("C12:design_with_condition_elaborates", True)
+        N, V = D.get("nested"), D.get("validated") or [False] * D["nm"]
+        cyc_klass = KLASS_LOOP if (D["cond_call"] and any(V[j] for b in D["br"] + (N["br"] if N else []) for j in b)) else ""
+        try:
+            build_netlist(sim._design)
+            rec.check("C10:design_with_condition_has_no_combinational_cycle", True)
+        except Exception as ex:
+            # a design with a combinational cycle is not simulated (the simulator would not settle)
+            rec.check("C10:design_with_condition_has_no_combinational_cycle", False, klass=cyc_klass, case=case, detail=str(ex)[:900])
+            return
         sim.add_clock(1e-6)
         # the branch transactions created by condition() (after merging they are methods of the manager): observed directly, not through
         # a witness inside the body (which is gated by the host's own run)
         tm = top.transaction_manager
         host_name = e.P.name if hasattr(e.P, "name") else "P"
-        branch_bodies = []
+        branch_bodies, nested_bodies = [], []
         for obj in list(tm.methods) + list(tm.transactions):
             b = obj._body
             # exactly the bodies named "<host>_cond<k>"; merged transactions are named "<member>_<member>..." and are not branch bodies
             if re.fullmatch(rf"{re.escape(host_name)}_cond\d+", b.name) and not any(b is x for x in branch_bodies):
                 branch_bodies.append(b)
-        inputs = e.cond + e.mr + [e.pr, e.tr, e.cc] + e.orr
+            if re.fullmatch(rf"{re.escape(host_name)}_cond\d+_cond\d+", b.name) and not any(b is x for x in nested_bodies):
+                nested_bodies.append(b)
+        by_name = {b.name: b for b in branch_bodies}
+        va_in = [e.va[j] for j in range(D["nm"]) if V[j]]
+        inputs = e.cond + e.cond2 + e.mr + va_in + [e.pr, e.tr, e.cc] + e.orr
         n = len(inputs)
         nb = D["nb"]
-        tag = f"nb{nb}d{int(D['default'])}nbk{int(D['nonblocking'])}p{int(D['priority'])}m{int(D['in_method'])}{D['cond_call']}ch{int(D['chain'])}s{int(D['share'])}"
+        tag = (f"nb{nb}d{int(D['default'])}nbk{int(D['nonblocking'])}p{int(D['priority'])}m{int(D['in_method'])}{D['cond_call']}ch{int(D['chain'])}s{int(D['share'])}"
+               f"v{int(any(V))}n{(str(N['nb']) + str(int(N['default'])) + str(int(N['nonblocking'])) + str(int(N['priority']))) if N else '-'}")
+        if N:
+            rec.count("designs_with_nested_condition")
+        if any(V):
+            rec.count("designs_with_validated_callees")
+
+        def callees_of_branch(i):
+            return set(D["br"][i]) | (set(j for b in N["br"] for j in b) if N and N["branch"] == i else set())
 
         async def tb(ctx):
             if n <= 10:
@@ -160,51 +230,119 @@ def run_one(rec, rnd, idx, max_cycles):
                 for s, x in zip(inputs, v):
                     ctx.set(s, x)
                 c = [ctx.get(s) for s in e.cond]
+                c2 = [ctx.get(s) for s in e.cond2]
                 mr = [ctx.get(s) for s in e.mr]
+                va = [ctx.get(s) for s in e.va]
+                eff = [bool(mr[j]) and (bool(va[j]) or not V[j]) for j in range(D["nm"])]  # ready and, if validated, called with an accepted argument
                 bw = [ctx.get(s) for s in e.bw]
+                bw2 = [ctx.get(s) for s in e.bw2]
                 pw, prun = ctx.get(e.pw), ctx.get(e.P.run)
                 oruns = [ctx.get(o.run) for o in e.outs]
                 rec.count("cycles")
-                det = {"inputs": {"cond": c, "method_ready": mr, "pr": v[nb + D["nm"]], "tr": v[nb + D["nm"] + 1], "cc": v[nb + D["nm"] + 2]}, "branch_witness": bw,
-                       "body_run": int(prun), "outside_runs": oruns}
+                det = {"inputs": {"cond": c, "nested_cond": c2, "method_ready": mr, "argument_valid": va, "pr": ctx.get(e.pr), "tr": ctx.get(e.tr), "cc": ctx.get(e.cc)},
+                       "branch_witness": bw, "nested_branch_witness": bw2, "body_run": int(prun), "outside_runs": oruns}
                 if bool(pw) != bool(prun):
                     rec.harness_error("body witness differs from body run")
                 condv = c + ([int(not any(c))] if D["default"] else [])
-                adm = [bool(condv[i]) and all(mr[j] for j in D["br"][i]) for i in range(len(D["br"]))]
+                nested_ok, adm2, condv2 = True, [], []
+                if N:
+                    condv2 = c2 + ([int(not any(c2))] if N["default"] else [])
+                    adm2 = [bool(condv2[k]) and all(eff[j] for j in N["br"][k]) for k in range(len(N["br"]))]
+                    nested_ok = any(adm2) or (N["nonblocking"] and not N["default"] and not any(c2))
+                adm = [bool(condv[i]) and all(eff[j] for j in D["br"][i]) and (nested_ok if N and N["branch"] == i else True) for i in range(len(D["br"]))]
+
+                def excused(skipped_callees):
+                    return any(orun and set(calls) & skipped_callees for orun, calls in zip(oruns, D["outside"]))
+
                 rec.check("C12:at_most_one_branch_runs", sum(bw) <= 1, case=case, detail=det)
                 for bb in branch_bodies:
                     brun = ctx.get(bb.run)
                     rec.check("C03:nested_branch_transaction_runs_only_with_its_enclosing_body", not brun or bool(prun), case=case, detail=dict(det, branch_body=bb.name))
                     if brun:
                         rec.count("branch_body_run_cycles")
+                for bb in nested_bodies:
+                    brun = ctx.get(bb.run)
+                    parent = by_name.get(bb.name.rsplit("_cond", 1)[0])
+                    if parent is not None:
+                        rec.check("C03:nested_branch_transaction_runs_only_with_its_enclosing_body", not brun or bool(ctx.get(parent.run)), case=case,
+                                  detail=dict(det, branch_body=bb.name, enclosing=parent.name))
+                        rec.check("C13:branch_of_nested_condition_never_runs_without_the_enclosing_method_being_called", not brun or bool(prun), case=case,
+                                  detail=dict(det, branch_body=bb.name))
                 for i, w in enumerate(bw):
                     if not w:
                         continue
                     rec.count(f"branch_index_{i}_ran")
                     rec.check("C12:branch_runs_only_with_enclosing_body", bool(prun), case=case, detail=dict(det, branch=i))
                     rec.check("C12:branch_runs_only_if_its_condition_holds", bool(condv[i]), case=case, detail=dict(det, branch=i))
-                    rec.check("C12:branch_runs_only_if_all_its_callees_are_ready", all(mr[j] for j in D["br"][i]), case=case, detail=dict(det, branch=i))
+                    rec.check("C12:branch_runs_only_if_all_its_callees_are_ready", all(eff[j] for j in D["br"][i]), case=case, detail=dict(det, branch=i))
+                    if any(V[j] for j in D["br"][i]):
+                        rec.count("branch_runs_calling_a_validated_method")
                     if D["default"] and i == nb:
                         rec.check("C12:default_branch_only_when_no_other_condition_holds", not any(c), case=case, detail=det)
                     if D["priority"]:
                         skipped = [i2 for i2 in range(i) if adm[i2]]
-                        exc = all(any(orun and set(calls) & set(D["br"][i2]) for orun, calls in zip(oruns, D["outside"])) for i2 in skipped)
+                        exc = all(excused(callees_of_branch(i2)) for i2 in skipped)
                         if skipped and exc:
                             rec.count("priority_cycles_excused_by_outside_transaction")
                         rec.check("C12:with_priority_no_earlier_admissible_branch_is_skipped", exc, case=case, detail=dict(det, ran=i, earlier_admissible=skipped))
                         rec.count("priority_branch_runs")
+                    if N and N["branch"] == i and not any(bw2):
+                        rec.count("enclosing_branch_ran_without_nested_branch")
+                        rec.check("C12:body_without_branch_only_if_nonblocking_and_no_condition_holds", N["nonblocking"] and not N["default"] and not any(c2), case=case,
+                                  detail=dict(det, level="nested"))
+                if N:
+                    rec.check("C12:at_most_one_branch_runs", sum(bw2) <= 1, case=case, detail=dict(det, level="nested"))
+                    for k, w in enumerate(bw2):
+                        if not w:
+                            continue
+                        rec.count("nested_branch_runs")
+                        rec.check("C12:branch_runs_only_with_enclosing_body", bool(bw[N["branch"]]), case=case, detail=dict(det, level="nested", branch=k))
+                        rec.check("C12:branch_runs_only_if_its_condition_holds", bool(condv2[k]), case=case, detail=dict(det, level="nested", branch=k))
+                        rec.check("C12:branch_runs_only_if_all_its_callees_are_ready", all(eff[j] for j in N["br"][k]), case=case, detail=dict(det, level="nested", branch=k))
+                        if N["default"] and k == N["nb"]:
+                            rec.check("C12:default_branch_only_when_no_other_condition_holds", not any(c2), case=case, detail=dict(det, level="nested"))
+                        if N["priority"]:
+                            skipped = [k2 for k2 in range(k) if adm2[k2]]
+                            exc = all(excused(set(N["br"][k2])) for k2 in skipped)
+                            rec.check("C12:with_priority_no_earlier_admissible_branch_is_skipped", exc, case=case, detail=dict(det, level="nested", ran=k, earlier_admissible=skipped))
+                            rec.count("priority_branch_runs")
+                if not any(ctx.get(s) for s in e.orr):
+                    # no outside transaction asks to run: nothing can oppose the enclosing body, so it (and its caller) runs iff it is fully enabled
+                    can = bool(ctx.get(e.pr)) and all(eff[j] for j in D["outer_calls"]) and (any(adm) or (D["nonblocking"] and not D["default"] and not any(c)))
+                    if D["in_method"]:
+                        called = bool(ctx.get(e.cc)) or not D["cond_call"]
+                        exp_host = bool(ctx.get(e.tr)) and called and can
+                        crun = bool(ctx.get(e.caller.run))
+                        if called:
+                            ok = crun == (bool(ctx.get(e.tr)) and can)
+                        else:
+                            # the host is not called in this cycle: readiness of a conditionally called method is still required (C03), whether its
+                            # branches must be admissible too is left open - the caller must run if everything is, and may run only if host and caller are ready
+                            lower = bool(ctx.get(e.tr)) and can
+                            upper = bool(ctx.get(e.tr)) and bool(ctx.get(e.pr)) and all(mr[j] for j in D["outer_calls"])
+                            ok = (not lower or crun) and (not crun or upper)
+                        rec.check("C07:unopposed_caller_of_condition_host_runs_iff_fully_enabled(consistency)", ok, case=case,
+                                  detail=dict(det, host_called=called, caller_run=int(crun)))
+                    else:
+                        exp_host = can
+                    rec.check("C07:unopposed_body_with_condition_runs_iff_fully_enabled(consistency)", bool(prun) == exp_host, case=case, detail=dict(det, expected_body_run=exp_host))
+                    rec.count("unopposed_cycles")
                 if prun and not any(bw):
                     rec.count("body_ran_without_branch")
                     rec.check("C12:body_without_branch_only_if_nonblocking_and_no_condition_holds", D["nonblocking"] and not D["default"] and not any(c), case=case, detail=det)
+                if D["cond_call"] and not ctx.get(e.cc):
+                    rec.count("cycles_with_host_not_called")
                 if sum(c) >= 2:
                     rec.count("cycles_with_two_or_more_conditions_true")
-                if any(condv[i] and not all(mr[j] for j in D["br"][i]) for i in range(len(D["br"]))):
+                if any(condv[i] and not all(eff[j] for j in D["br"][i]) for i in range(len(D["br"]))):
                     rec.count("cycles_with_true_condition_but_unready_callee")
+                if any(condv[i] and all(mr[j] for j in D["br"][i]) and not all(eff[j] for j in D["br"][i]) for i in range(len(D["br"]))):
+                    rec.count("cycles_with_true_condition_but_rejected_argument")
                 for j in range(D["nm"]):
                     exp = any(bw[i] for i in range(len(D["br"])) if j in D["br"][i]) or (pw and j in D["outer_calls"]) or \
-                        any(orun and j in calls for orun, calls in zip(oruns, D["outside"]))
+                        any(orun and j in calls for orun, calls in zip(oruns, D["outside"])) or (N and any(bw2[k] for k in range(len(N["br"])) if j in N["br"][k]))
                     rec.check("C04:method_runs_iff_called(consistency)", bool(ctx.get(e.ms[j].run)) == bool(exp), case=case, detail=dict(det, method=j))
-                rec.nontrivial(f"{tag}|c{sum(c)}|bw{bw.index(1) if 1 in bw else '-'}|p{int(prun)}")
+                rec.nontrivial(f"{tag}|c{sum(c)}|bw{bw.index(1) if 1 in bw else '-'}|x{bw2.index(1) if 1 in bw2 else '-'}|p{int(prun)}")
                 await ctx.tick()
 
         sim.add_testbench(tb)
